@@ -187,7 +187,7 @@ impl Stage for C03 {
 }
 
 pub fn cfg() -> GenCfg {
-    GenCfg { max_cmds: 18, min_cmds: 5, subsume: true, max_run: 4, ..GenCfg::default() }
+    GenCfg { max_cmds: 18, min_cmds: 5, subsume: true, containers: true, max_run: 4, ..GenCfg::default() }
 }
 
 pub fn replay(rep: &Report, stage: &str, j: &serde_json::Value) -> i32 {
